@@ -54,6 +54,25 @@ ASSUMPTIONS = [
 EXC_CODE = {"ValueError": 1, "AxisError": 1, "NotImplementedError": 2, "OverflowError": 3}
 
 
+def run_guarded(fn, cases, workers, per_case_timeout, batch=120, deadline=420.0):
+    """vlib.run_impl in batches, each under a deadline: a worker that dies between taking a case and
+    announcing it (segfault in a nopython kernel) would otherwise block the pool for ever.  Cases of a
+    batch that does not return are reported as {'lost': True}."""
+    import threading
+    out = []
+    for k in range(0, len(cases), batch):
+        chunk = cases[k:k + batch]
+        box = {}
+
+        def work(chunk=chunk, box=box):
+            box["res"] = vlib.run_impl("props.c11", fn, chunk, workers=workers, per_case_timeout=per_case_timeout)
+        th = threading.Thread(target=work, daemon=True)
+        th.start()
+        th.join(deadline)
+        out.extend(box.get("res") or [{"lost": True} for _ in chunk])
+    return out
+
+
 # ====================================================================== part 1: histories
 def _digest(*parts):
     h = hashlib.sha256()
@@ -134,10 +153,28 @@ def _run_history(case, cache):
                 o = t.tocsr()
             elif kind == "csc":
                 o = t.tocsc()
-            elif kind == "dotl":
-                o = sparse.dot(t, _operand(op[2], op[3], op[4]))
-            elif kind == "dotr":
-                o = sparse.dot(_operand(op[2], op[3], op[4]), t)
+            elif kind in ("dotl", "dotr"):
+                # tensordot first calls t.transpose(..).reshape(..) — through t's memo.  Make the same calls
+                # here first (the ones inside dot are then hits, or recomputations without caching) and never
+                # feed a nopython kernel an array that is not the planned one: a wrong object coming out of the
+                # memo would make the kernel read out of bounds.
+                sh = op[5]
+                b = _operand(op[2], op[3], op[4])
+                if not (len(sh) == 1 and b.ndim == 1):
+                    if kind == "dotl":
+                        pre, want = t.reshape((-1, sh[-1])), [_prod(sh[:-1]), sh[-1]]
+                    elif len(sh) <= 2:
+                        pre, want = t.reshape((sh[0], -1)), [sh[0], _prod(sh[1:])]
+                    else:
+                        n = len(sh)
+                        pre = t.transpose([n - 2] + [a for a in range(n) if a != n - 2]).reshape((sh[n - 2], -1))
+                        want = [sh[n - 2], _prod(sh) // sh[n - 2]]
+                    ok = ([int(d) for d in t.shape] == sh and [int(d) for d in pre.shape] == want
+                          and pre.coords.shape == (2, pre.nnz) and pre.data.shape == (pre.nnz,)
+                          and (pre.nnz == 0 or (pre.coords.max(axis=1) < np.array(want)).all()))
+                    if not ok:
+                        raise RuntimeError("the memo returned an array that is not the planned one")
+                o = sparse.dot(t, b) if kind == "dotl" else sparse.dot(b, t)
             else:
                 raise AssertionError(kind)
             res.append(("ok", o))
@@ -315,31 +352,30 @@ def gen_history(rng, maxlen):
             xops.append([tx, 2 if kind == "csr" else 3, None, True, True])
             out_shape = None
         elif kind == "dotl":
+            # tensordot(a=t, b): t.transpose(identity) is `return self`; then t.reshape((-1, N2)) goes through
+            # t's reshape memo — unless both are 1-d (no reshape at all)
             n2 = tshape[-1]
             bshape = [n2] if rng.random() < 0.3 else [n2, rng.choice([1, 2])]
-            uops.append(["dotl", tu, bshape, rng.random() < 0.4, rng.randrange(1 << 30)])
+            uops.append(["dotl", tu, bshape, rng.random() < 0.4, rng.randrange(1 << 30), list(tshape)])
             if not (nd_t == 1 and len(bshape) == 1):
                 xops.append([tx, 1, [-1, n2], True, False])
-                u2x.append(None)
                 tag("dot-hidden-reshape")
-                continue_dot = True
-            out_shape = None
-        else:  # dotr
+        else:
+            # tensordot(a, b=t): t.transpose([axis] + rest) (identity for ndim <= 2), then .reshape((K, -1)) on
+            # what that returned — for ndim >= 3 a derived object with its own memo
             k = tshape[-2] if nd_t >= 2 else tshape[0]
             ashape = [rng.choice([1, 2]), k] if (nd_t == 1 or rng.random() < 0.7) else [k]
-            uops.append(["dotr", tu, ashape, rng.random() < 0.4, rng.randrange(1 << 30)])
+            uops.append(["dotr", tu, ashape, rng.random() < 0.4, rng.randrange(1 << 30), list(tshape)])
             if nd_t <= 2:
                 xops.append([tx, 1, [k, -1], True, False])
+                tag("dot-hidden-reshape")
             else:
                 newaxes = [nd_t - 2] + [a for a in range(nd_t) if a != nd_t - 2]
                 xops.append([tx, 0, newaxes, True, False])
                 xops.append([len(xops) - 1, 1, [k, -1], True, False])
                 tag("dot-hidden-transpose")
-            u2x.append(None)
-            out_shape = None
         if kind in ("dotl", "dotr"):
-            if len(u2x) <= ui:
-                u2x.append(None)
+            u2x.append(None)
             tag(kind)
             continue
         u2x.append(len(xops) - 1)
@@ -426,7 +462,7 @@ def campaign_hist(build, tier, seed, report, budget):
         aux.append((xops, u2x))
         for t, v in tg.items():
             tags[t] = tags.get(t, 0) + v
-    res = vlib.run_impl("props.c11", "impl_hist", cases, workers=12, per_case_timeout=60.0)
+    res = run_guarded("impl_hist", cases, 12, 60.0, batch=80)
     lits, idx, viol = [], [], []
     hits = evict = selfret = excs = nested = 0
     for i, (case, (xops, u2x), r) in enumerate(zip(cases, aux, res, strict=True)):
@@ -533,7 +569,7 @@ def _to_fmt(a, fmt, fill, rng):
     if fmt == "coo":
         return sparse.COO.from_numpy(a, fill_value=fill)
     if fmt == "dok":
-        return sparse.DOK.from_numpy(a, fill_value=fill)
+        return sparse.DOK.from_coo(sparse.COO.from_numpy(a, fill_value=fill))
     nd = a.ndim
     if nd == 0:
         return sparse.COO.from_numpy(a, fill_value=fill)
@@ -584,7 +620,6 @@ def _ops_table():
     u("gt_scalar", lambda x, r: x > 1)
     u("eq_scalar", lambda x, r: x == 0)
     u("where_mask", lambda x, r: sparse.where(x > 1, x, 0))
-    u("nan_to_num", lambda x, r: sparse.nan_to_num(x))
     u("elemwise_lambda", lambda x, r: sparse.elemwise(np.add, x, x))
     b("add", lambda x, y, r: x + y)
     b("sub", lambda x, y, r: x - y)
@@ -786,10 +821,14 @@ def snap_cases(tier, seed, budget):
         for fmt in fmts:
             for _ in range(reps):
                 shape = rng.choice(shapes if rng.random() < 0.9 else [()])
+                fill = rng.choice([0, 0, 0, 3])
+                if op in ("tocsr", "tocsc", "to_scipy", "matrix_transpose", "triu", "tril", "mT") and rng.random() < 0.8:
+                    shape = rng.choice([(2, 3), (3, 3), (1, 4), (4, 1)])      # mostly admissible operands
+                    fill = 0
                 if op in ("dot", "matmul", "sparse.matmul", "tensordot1", "dot_dense", "rdot_dense", "einsum", "kron",
                           "outer_flat") and (0 in shape or len(shape) == 0):
                     shape = (2, 3)           # zero-extent contractions can hang in a nogil kernel (C18's subject)
-                cases.append({"op": op, "fmt": fmt, "shape": list(shape), "fill": rng.choice([0, 0, 0, 3]),
+                cases.append({"op": op, "fmt": fmt, "shape": list(shape), "fill": fill,
                               "seed": rng.randrange(1 << 30), "share": rng.choice(shares),
                               "floaty": op.startswith("nan") or rng.random() < 0.25,
                               "fmt2": rng.choice(fmts)})
@@ -811,7 +850,7 @@ SNAP_CODES = {1: "an operand's shape / dtype / fill value / array flags changed"
 
 def campaign_snap(build, tier, seed, report, budget):
     cases = snap_cases(tier, seed, budget)
-    res = vlib.run_impl("props.c11", "impl_snap", cases, workers=14, per_case_timeout=60.0)
+    res = run_guarded("impl_snap", cases, 14, 60.0, batch=600)
     lits, idx, viol = [], [], []
     tags = {}
     hangs = 0
